@@ -228,7 +228,7 @@ def decode(j):
         return cls(*[decode(x) for x in j['args']], **{k: decode(v) for k, v in j.get('kwargs', {}).items()})
     if 'tuple' in j:
         return tuple(decode(x) for x in j['tuple'])
-    if 'set' in j:
+    if 'set' in j and 'with' not in j:
         return set(decode(x) for x in j['set'])
     if 'with' in j:
         o = decode(j['with'])
@@ -463,6 +463,15 @@ class StubToken:
         return f'<result {self.k} of {self.name}>'
 
 
+def global_random_state():
+    import random as _r
+    import numpy as np
+    import gym_gridverse.rng as gvr
+    g = gvr._gv_rng
+    return (repr(_r.getstate())[:2000], repr(np.random.get_state())[:4000],
+            None if g is None else repr(g.bit_generator.state))
+
+
 def install_stub(st, sname, ret=None, inputs_json=None):
     """recording pass-through for a stubbed callee (the real callee still runs)"""
     mod, qual = sname.split(':')
@@ -538,6 +547,9 @@ def run_contract(spec, inputs_json, only=None):
     target = resolve(spec.target)
     if isinstance(target, property):
         target = target.fget
+    import gym_gridverse.rng as _gvr
+    _gvr.reset_gv_rng(20260926)   # the library generator exists: any change of its state is a real draw
+    snap0 = global_random_state()
     st.phase = 'body'
     patches = []
     stubs = spec.opts.get('stubs', [])
@@ -557,6 +569,9 @@ def run_contract(spec, inputs_json, only=None):
             setattr(owner, attr, orig)
     st.phase = 'post'
     st.old_i = 0
+    if global_random_state() != snap0:
+        st.clauses.append(('implicit:no-global-state-no-hidden-randomness', False,
+                           'a global random source (numpy.random / random / gym_gridverse.rng._gv_rng) changed'))
 
     def possible_hook(rng, thunk):
         import itertools
